@@ -13,6 +13,11 @@ Proof. unfold is_star. apply bytes_eqb_eq. Qed.
 Lemma star_not_empty (s : name) : is_star s = true -> is_empty s = false.
 Proof. intros H. apply is_star_true in H. subst. reflexivity. Qed.
 
+Lemma gtb_false_le a b : (a >? b) = false -> a <= b.
+Proof. lia. Qed.
+Lemma gtb_true_not_le a b : (a >? b) = true -> a <= b -> False.
+Proof. lia. Qed.
+
 Section VerifyP.
   Variable cert : Type.
   Variable pool : Type.
@@ -176,14 +181,14 @@ Section VerifyP.
     (is_ok (verify_server_certificate cfg c (leaf :: rest)) = true <->
      (ech_rejected cfg c = false /\ InsecureSkipVerify cfg = true) \/
      x509_verify (RootCAs cfg) (expected_time cfg leaf) (dns_of_name (expected_name cfg c pub)) (leaf :: rest) = true).
-  Proof.
+  Proof using cert pool x509_verify not_after chain_parses leaf_key_supported hostname_in_sni.
     intros Hacc Hpub Hp Hk Hcb Hvc c Hc.
     rewrite (verify_ok_iff cfg c leaf rest Hp Hk Hcb Hvc).
     destruct (ech_rejected cfg c) eqn:Hrej.
-    - rewrite (opts_are_expected cfg pub accepted leaf Hacc Hpub c Hc (or_introl Hrej)). unfold run_x509. cbn. tauto.
+    - rewrite (opts_are_expected cfg pub accepted leaf Hacc Hpub c Hc (or_introl Hrej)). unfold run_x509. cbn [o_roots o_time o_dns_name]. apply iff_refl.
     - destruct (InsecureSkipVerify cfg) eqn:Hsv.
       + split; intros _; left; auto.
-      + rewrite (opts_are_expected cfg pub accepted leaf Hacc Hpub c Hc (or_intror Hsv)). unfold run_x509. cbn. tauto.
+      + rewrite (opts_are_expected cfg pub accepted leaf Hacc Hpub c Hc (or_intror Hsv)). unfold run_x509. cbn [o_roots o_time o_dns_name]. apply iff_refl.
   Qed.
 
   (* what the caller of Handshake sees *)
@@ -234,7 +239,7 @@ Section VerifyP.
     forall c, c = conn_at_verify cfg pub accepted ->
     x509_verify (RootCAs cfg) (expected_time cfg leaf) (dns_of_name (expected_name cfg c pub)) (leaf :: rest) = true ->
     client_result cfg c (leaf :: rest) = (if ech_rejected cfg c then HsEchRejected else HsOk).
-  Proof.
+  Proof using cert pool x509_verify not_after chain_parses leaf_key_supported hostname_in_sni.
     intros Hacc Hpub Hp Hk Hcb Hvc c Hc Hx.
     assert (Hok : is_ok (verify_server_certificate cfg c (leaf :: rest)) = true).
     { apply (decision cfg pub accepted leaf rest Hacc Hpub Hp Hk Hcb Hvc c Hc). right. exact Hx. }
@@ -281,7 +286,7 @@ Section VerifyP.
         | Some n => verify_hostname (s_leaf s) n = true
         | None => True
         end)).
-  Proof.
+  Proof using cert pool verify_hostname not_after.
     intros Hacc Hrej. unfold Verify.load_session_cert_checks, expected_name. rewrite Hrej.
     destruct (InsecureSkipTimeVerify cfg) eqn:Hst; cbn [negb andb].
     - destruct (InsecureSkipVerify cfg) eqn:Hsv; cbn [negb].
@@ -291,29 +296,29 @@ Section VerifyP.
           destruct (is_empty (InsecureServerNameToVerify cfg)) eqn:Hinv.
           -- unfold config_accepted in Hacc. rewrite Hsv, Hinv in Hacc. simpl in Hacc. rewrite !orb_false_r in Hacc.
              apply negb_true_iff in Hacc. rewrite Hacc. cbn [negb]. split.
-             ++ intros H. split; [intros; discriminate | intros _; split; auto].
+             ++ intros H. split; [intros; discriminate | intros _; split; [reflexivity|first [exact I|assumption]]].
              ++ intros [_ H]. apply H. reflexivity.
           -- destruct (is_star (InsecureServerNameToVerify cfg)) eqn:Hstar; cbn [negb is_empty].
-             ++ split; [intros _; split; [intros; discriminate | intros _; split; auto] | reflexivity].
+             ++ split; [intros _; split; [intros; discriminate | intros _; split; [reflexivity|first [exact I|assumption]]] | reflexivity].
              ++ rewrite Hinv. cbn [negb]. split.
-                ** intros H. split; [intros; discriminate | intros _; split; auto].
+                ** intros H. split; [intros; discriminate | intros _; split; [reflexivity|first [exact I|assumption]]].
                 ** intros [_ H]. apply H. reflexivity.
         * split; [discriminate|]. intros [_ H]. destruct (H eq_refl) as [H' _]. discriminate.
     - destruct (cfg_time cfg >? not_after (s_leaf s)) eqn:Hgt.
-      + split; [discriminate|]. intros [H _]. specialize (H eq_refl). lia.
+      + split; [discriminate|]. intros [H _]. specialize (H eq_refl). exfalso. exact (gtb_true_not_le _ _ Hgt H).
       + destruct (InsecureSkipVerify cfg) eqn:Hsv; cbn [negb].
-        * split; [intros _; split; [intros; lia | intros; discriminate] | reflexivity].
+        * split; [intros _; split; [intros _; exact (gtb_false_le _ _ Hgt) | intros; discriminate] | reflexivity].
         * destruct (s_has_verified_chains s); cbn [negb].
           -- unfold dns_name.
              destruct (is_empty (InsecureServerNameToVerify cfg)) eqn:Hinv.
              ++ unfold config_accepted in Hacc. rewrite Hsv, Hinv in Hacc. simpl in Hacc. rewrite !orb_false_r in Hacc.
                 apply negb_true_iff in Hacc. rewrite Hacc. cbn [negb]. split.
-                ** intros H. split; [intros; lia | intros _; split; auto].
+                ** intros H. split; [intros _; exact (gtb_false_le _ _ Hgt) | intros _; split; [reflexivity|first [exact I|assumption]]].
                 ** intros [_ H]. apply H. reflexivity.
              ++ destruct (is_star (InsecureServerNameToVerify cfg)) eqn:Hstar; cbn [negb is_empty].
-                ** split; [intros _; split; [intros; lia | intros _; split; auto] | reflexivity].
+                ** split; [intros _; split; [intros _; exact (gtb_false_le _ _ Hgt) | intros _; split; [reflexivity|first [exact I|assumption]]] | reflexivity].
                 ** rewrite Hinv. cbn [negb]. split.
-                   --- intros H. split; [intros; lia | intros _; split; auto].
+                   --- intros H. split; [intros _; exact (gtb_false_le _ _ Hgt) | intros _; split; [reflexivity|first [exact I|assumption]]].
                    --- intros [_ H]. apply H. reflexivity.
           -- split; [discriminate|]. intros [_ H]. destruct (H eq_refl) as [H' _]. discriminate.
   Qed.
